@@ -121,9 +121,42 @@ theorem owner_unique (nTasks : Nat) (nBatches : Int) (start : Nat) (hn : 1 ≤ n
   | [x] => rw [hl] at hpf hqf; simp at hpf hqf; rw [hpf, hqf]
   | x :: y :: r => rw [hl] at hle; simp at hle
 
+/-! ### `run_worker`: what is handed to `batch_tasks` -/
+
+/-- without an explicit `n_batches` the pool size is used, and never less than one batch -/
+theorem run_worker_default_batches_pos (poolSize : Int) : 1 ≤ runWorkerNBatches none poolSize := by
+  show 1 ≤ max 1 poolSize
+  omega
+
+/-- an explicit `n_batches` is passed through unchanged -/
+theorem run_worker_explicit_batches (b poolSize : Int) : runWorkerNBatches (some b) poolSize = b := rfl
+
+/-- `n_prior_samples` together with `samples_idx` is rejected; otherwise the number of rows is `len(samples_idx)`, else
+`n_prior_samples`, else the number of rows of the file -/
+theorem run_worker_n_samples (nFile : Nat) (nPrior idxLen : Option Nat) :
+    runWorkerNSamples nFile nPrior idxLen =
+      match nPrior, idxLen with
+      | some _, some _ => .error "value"
+      | none, some l => .ok l
+      | some n, none => .ok n
+      | none, none => .ok nFile := by
+  cases nPrior <;> cases idxLen <;> rfl
+
+/-- whatever `n_batches` the caller gives (also ≤ 0 or larger than the number of rows) and whatever the pool size, the
+tasks `run_worker` builds cover rows `0 … nSamples−1` exactly once, in order, and there are at most `nSamples` of them -/
+theorem run_worker_tasks_cover (nBatches : Option Int) (poolSize : Int) (ns : Nat) (hn : 1 ≤ ns) :
+    (batchTasks ns (runWorkerNBatches nBatches poolSize) 0).flatMap (fun p => List.range' p.1 (p.2 - p.1)) =
+      List.range' 0 ns ∧
+    (batchTasks ns (runWorkerNBatches nBatches poolSize) 0).length ≤ ns ∧
+    1 ≤ (batchTasks ns (runWorkerNBatches nBatches poolSize) 0).length := by
+  refine ⟨batches_cover ns _ 0 hn, ?_, ?_⟩ <;>
+  · rw [batches_count]; split <;> omega
+
 -- non-vacuity: a concrete non-trivial instance (10 tasks, 3 batches, start 5; and more batches than tasks)
 example : batchTasks 10 3 5 = [(5, 9), (9, 12), (12, 15)] := by decide
 example : batchTasks 3 7 0 = [(0, 3)] := by decide
+example : runWorkerNSamples 100 (some 10) none = .ok 10 ∧ runWorkerNBatches none 0 = 1 ∧ runWorkerNBatches none 4 = 4 :=
+  ⟨rfl, by decide, by decide⟩
 example : (List.range 20).map (owners (batchTasks 10 3 5)) = [0,0,0,0,0,1,1,1,1,1,1,1,1,1,1,0,0,0,0,0] := by decide
 example : batchTasksArr [10, 11, 12, 13, 14] 5 2 0 = [([10, 11, 12], 0), ([13, 14], 3)] := by decide
 
